@@ -592,3 +592,11 @@ Definition cloops_full (ls : list cloop) : bool :=
 Definition polygon_has_index (ls : list cloop) : bool := if cloops_full ls then true else true.
 Definition polygon_query_entry (ls : list cloop) : result unit :=
   if polygon_has_index ls then Ok tt else Panic.
+
+(** Polygon.numVertices of a decoded polygon: the lossless decoder adds up the loop lengths,
+    initLoopProperties does the same for the compressed format *)
+Definition dpolygon_num_vertices (p : dpolygon) : Z :=
+  match p with
+  | DLossless q => num_vertices q
+  | DCompressed ls => fold_left (fun a l => a + len (cl_vertices l)) ls 0
+  end.
